@@ -5,6 +5,7 @@ import (
 	"runtime/debug"
 	"sort"
 	"strings"
+	"time"
 
 	appsv1 "k8s.io/api/apps/v1"
 	corev1 "k8s.io/api/core/v1"
@@ -509,6 +510,10 @@ type Record struct {
 	Stack    string
 	Crashed  bool
 	ListPerm uint64
+	// worker-step bookkeeping (ReconcileWorker only)
+	ViaWorker bool
+	Requeues  int
+	ReAdded   bool
 }
 
 func (r *Record) Writes() []*Action {
@@ -551,6 +556,26 @@ func splitKey(key string) (string, string) {
 
 // Reconcile runs one real reconcile of key against the current caches and records everything.
 func (c *Cluster) Reconcile(key string) *Record {
+	return c.reconcile(key, false)
+}
+
+// ReconcileWorker runs the reconcile through one real worker step (dequeue, sync, then
+// AddRateLimited or Forget) and reports the key's requeue counter afterwards. The error the worker
+// swallowed is recovered from the error handler. ReAdded reports whether the key came back into the
+// queue after a failure (waited for with a generous deadline; the backoff is 5ms).
+func (c *Cluster) ReconcileWorker(key string) *Record {
+	return c.reconcile(key, true)
+}
+
+func (c *Cluster) drainQueue() {
+	q := c.r.ctrl.VerifQueue()
+	for q.Len() > 0 {
+		k, _ := q.Get()
+		q.Done(k)
+	}
+}
+
+func (c *Cluster) reconcile(key string, viaWorker bool) *Record {
 	ns, name := splitKey(key)
 	rec := &Record{Key: key, ListPerm: c.ListPerm}
 	if s := c.CacheSet(ns, name); s != nil {
@@ -585,7 +610,37 @@ func (c *Cluster) Reconcile(key string) *Record {
 				rec.Stack = string(debug.Stack())
 			}
 		}()
-		rec.Err = c.r.ctrl.VerifSync(key)
+		if !viaWorker {
+			rec.Err = c.r.ctrl.VerifSync(key)
+			return
+		}
+		q := c.r.ctrl.VerifQueue()
+		c.drainQueue()
+		q.Forget(key)
+		handledMu.Lock()
+		lastHandled = nil
+		handledMu.Unlock()
+		q.Add(key)
+		rec.ViaWorker = true
+		defer func() {
+			// also after a simulated crash: leave no delayed re-add behind
+			rec.Requeues = q.NumRequeues(key)
+			if rec.Requeues > 0 {
+				deadline := time.Now().Add(5 * time.Second)
+				for q.Len() == 0 && time.Now().Before(deadline) {
+					time.Sleep(time.Millisecond)
+				}
+				rec.ReAdded = q.Len() > 0
+				c.drainQueue()
+			}
+			q.Forget(key)
+		}()
+		c.r.ctrl.VerifProcessNextWorkItem()
+		handledMu.Lock()
+		if lastHandled != nil && strings.Contains(lastHandled.Error(), "requeuing") {
+			rec.Err = lastHandled
+		}
+		handledMu.Unlock()
 	}()
 	c.logging = false
 	rec.ListedPods = c.snapTaken
